@@ -21,6 +21,7 @@ type specEnv struct {
 	pre   *State
 	names map[string]Val
 	noLocal bool // names resolve in the environment only (prev())
+	closed  bool // callee clause: the caller's parameters are not visible
 }
 
 // splitTop splits s at the first top-level occurrence of sep (outside
@@ -71,7 +72,14 @@ func splitAllTop(s, sep string) []string {
 }
 
 func (f *frame) evalSpec(src string, st *State, extra map[string]Val, pre *State) string {
-	return f.evalSpecIn(f.fn, src, st, f.mergedEnv(extra), pre)
+	env := map[string]Val{}
+	for k, v := range f.named {
+		env[k] = v
+	}
+	for k, v := range extra {
+		env[k] = v
+	}
+	return f.evalSpecEnv(f.fn, src, st, env, pre, false)
 }
 
 func (f *frame) mergedEnv(extra map[string]Val) map[string]Val {
@@ -88,8 +96,19 @@ func (f *frame) mergedEnv(extra map[string]Val) map[string]Val {
 	return env
 }
 
+// evalSpecIn evaluates a clause of another function's contract (a callee at a
+// call site): only the given environment is visible.
 func (f *frame) evalSpecIn(fn *ssa.Function, src string, st *State, env map[string]Val, pre *State) string {
-	se := &specEnv{f: f, st: st, pre: pre, names: env}
+	return f.evalSpecEnv(fn, src, st, env, pre, true)
+}
+
+// Identifier resolution in this function's own clauses: the explicit environment
+// (result, loop-carried variables), then the current SSA definition of a source
+// variable at the program point (so a reassigned parameter denotes its current
+// value in loop and call-site clauses), then the parameters (entry values; in
+// post-conditions and inside old() a parameter name always denotes the entry value).
+func (f *frame) evalSpecEnv(fn *ssa.Function, src string, st *State, env map[string]Val, pre *State, closed bool) string {
+	se := &specEnv{f: f, st: st, pre: pre, names: env, noLocal: closed, closed: closed}
 	if fn.Pkg != nil {
 		se.pkg = fn.Pkg.Pkg
 	}
@@ -125,7 +144,7 @@ func outerParens(s string) bool {
 }
 
 func (se *specEnv) child(names map[string]Val) *specEnv {
-	return &specEnv{f: se.f, pkg: se.pkg, st: se.st, pre: se.pre, names: names}
+	return &specEnv{f: se.f, pkg: se.pkg, st: se.st, pre: se.pre, names: names, noLocal: se.noLocal, closed: se.closed}
 }
 
 func (se *specEnv) evalTop(src string) Val {
@@ -447,9 +466,12 @@ func (se *specEnv) eval(x ast.Expr) (out Val) {
 			return v
 		}
 		// a local that lives in a cell
-		if v, ok := se.f.lookupName("&" + n.Name); ok {
+		if v, ok := se.f.lookupName("&" + n.Name); ok && !se.noLocal {
 			a := se.f.asAddr(v)
 			return Val{term: e.load(se.st, a), typ: v.typ.Underlying().(*types.Pointer).Elem()}
+		}
+		if v, ok := se.f.params[n.Name]; ok && !se.closed {
+			return v
 		}
 		if c, ok := se.lookupObj(n).(*types.Const); ok {
 			return se.constVal(c)
@@ -528,7 +550,8 @@ func (se *specEnv) eval(x ast.Expr) (out Val) {
 	case *ast.SelectorExpr:
 		// qualified constant (ir.BinaryModulo)?
 		if id, ok := n.X.(*ast.Ident); ok {
-			if _, isLocal := se.names[id.Name]; !isLocal {
+			_, isParam := se.f.params[id.Name]
+			if _, isLocal := se.names[id.Name]; !isLocal && !isParam {
 				if _, isLocal2 := se.f.lookupName(id.Name); !isLocal2 {
 					if c, ok := se.lookupObj(n).(*types.Const); ok {
 						return se.constVal(c)
@@ -705,7 +728,7 @@ func (se *specEnv) evalCall(n *ast.CallExpr) Val {
 			for k, v := range se.f.params {
 				names[k] = v
 			}
-			o := &specEnv{f: se.f, pkg: se.pkg, st: se.pre, pre: se.pre, names: names}
+			o := &specEnv{f: se.f, pkg: se.pkg, st: se.pre, pre: se.pre, names: names, noLocal: true, closed: se.closed}
 			return o.eval(n.Args[0])
 		case "prev": // value at the header of the enclosing loop
 			hi := se.f.prevHdr
